@@ -207,6 +207,16 @@ def run(chk):
         chk.count("form " + lay["form"])
         chk.count("method " + lay["method"])
         oracle(chk, lay, mbins, ifm)
+        # the same layout again in the same process with ANOTHER IFMR (other remnant bounds): its remnant bins are its own
+        if len(lays) % 5 == 0 and lay["breaks"][-1] >= 50 and lay["breaks"][0] <= 0.5:
+            for other in (("real", float(rng.choice([-2.0, 0.0, -0.5, 0.3]))), ("stub", 1.05 + 0.4 * rng.random(), 6.0 + 10 * rng.random())):
+                lay2 = dict(lay, ifmr=list(other))
+                try:
+                    mb2, ifm2 = build(lay2)
+                except Exception:  # noqa
+                    continue
+                chk.count("same layout rebuilt with another IFMR")
+                oracle(chk, lay2, mb2, ifm2)
     # ---- T3 edges + carving -------------------------------------------
     exprs = []
     meta = []
